@@ -50,6 +50,7 @@ type ObjDump struct {
 	NamesErr string
 	Children []string
 	SliceErr string // ReadSlice of a centre block (Extra)
+	SliceSum string // digest of the values ReadSlice returned (Extra)
 	IterErr  string // chunk iterator pass (Extra)
 }
 
@@ -312,9 +313,41 @@ func dumpDataset(f *hdf5.File, v *hdf5.Dataset, od *ObjDump, o DumpOpts) {
 				count[i] = 64
 			}
 		}
-		if _, err := v.ReadSlice(start, count); err != nil {
-			od.SliceErr = err.Error()
+		// keep the selection small (the values are digested)
+		total := uint64(1)
+		for i := range count {
+			for total*count[i] > 4096 && count[i] > 1 {
+				count[i] /= 2
+			}
+			total *= count[i]
 		}
+		res, err := v.ReadSlice(start, count)
+		if err != nil {
+			od.SliceErr = err.Error()
+			return
+		}
+		// and the block that ends at the last element (the tail of the stored data)
+		// (about two thirds of every dimension, so that neither rows nor columns are complete)
+		tail := make([]uint64, len(od.Dims))
+		tcount := make([]uint64, len(od.Dims))
+		ttotal := uint64(1)
+		for i, d := range od.Dims {
+			tcount[i] = d - d/3
+			if tcount[i] == 0 {
+				tcount[i] = 1
+			}
+			for (tcount[i] > 64 || ttotal*tcount[i] > 4096) && tcount[i] > 1 {
+				tcount[i] /= 2
+			}
+			ttotal *= tcount[i]
+			tail[i] = d - tcount[i]
+		}
+		res2, err := v.ReadSlice(tail, tcount)
+		if err != nil {
+			od.SliceErr = err.Error()
+			return
+		}
+		od.SliceSum = fmt.Sprintf("%T:%x:%x", res, fnv64(fmt.Sprint(res)), fnv64(fmt.Sprint(res2)))
 	}()
 	func() {
 		defer recoverTo(&od.IterErr)
@@ -527,4 +560,13 @@ func sameAny(a, b interface{}) bool {
 		return true
 	}
 	return reflect.DeepEqual(a, b)
+}
+
+func fnv64(s string) uint64 {
+	h := uint64(1469598103934665603)
+	for i := 0; i < len(s); i++ {
+		h ^= uint64(s[i])
+		h *= 1099511628211
+	}
+	return h
 }
